@@ -1,6 +1,383 @@
 import PyxisVerif.Spec.C02
+import PyxisVerif.Spec.C08
 import PyxisVerif.Lemmas.C01
 /-! helper lemmas for C02 -/
 namespace PyxisVerif.C02
-open Layout
+open Layout Gen
+
+/-! ## embedding -/
+
+theorem embedding_lem (reg : Registry) (t : DTy) (s a : Nat)
+    (hs : t.size reg = .ok (some s)) (ha : t.align reg = some a) :
+    tyLayout reg.ps (regLayout reg) t = some (s, a) := by
+  induction t generalizing s with
+  | raw p =>
+    simp only [DTy.size, DTy.align, Res.ok.injEq] at hs ha
+    simp only [tyLayout, regLayout]
+    cases hg : reg.get p with
+    | none => simp [hg] at hs
+    | some i =>
+      simp only [hg, Option.bind_some] at hs ha ⊢
+      cases hr : i.resolved? with
+      | none => simp [hr] at hs
+      | some r =>
+        simp only [hr, Option.map_some, Option.some.injEq] at hs ha ⊢
+        simp [hs, ha]
+  | cptr t _ =>
+    simp only [DTy.size, DTy.align, Res.ok.injEq, Option.some.injEq] at hs ha
+    subst hs; subst ha
+    simp [tyLayout]
+  | mptr t _ =>
+    simp only [DTy.size, DTy.align, Res.ok.injEq, Option.some.injEq] at hs ha
+    subst hs; subst ha
+    simp [tyLayout]
+  | arr t n ih =>
+    simp only [DTy.size, DTy.align] at hs ha
+    split at hs
+    · rename_i s' hs'
+      split at hs
+      · simp only [Res.ok.injEq, Option.some.injEq] at hs
+        simp [tyLayout, ih s' hs' ha, hs]
+      · cases hs
+    · rename_i hne
+      exact absurd hs (hne s)
+
+/-! ## structs -/
+
+theorem struct_sound_lem {β} (ps : Nat) (packed : Bool) (align? : Option Nat)
+    (vptr : Option (PField β)) (fields : List (PField β)) (target : Option Nat)
+    (placed : List (Placed β)) (size a : Nat)
+    (h : resolve vptr fields target = .ok (placed, size))
+    (ha : alignCheck ps packed align? placed size = .ok a) :
+    RustSem.structSize packed (if packed then none else some a) (placed.map C01.toFld) = size
+    ∧ RustSem.structAlign packed (if packed then none else some a) (placed.map C01.toFld) = a
+    ∧ (∀ n, target = some n → size = n)
+    ∧ (∀ n, align? = some n → a = n)
+    ∧ (packed = true → a = 1) := by
+  have hsz := (C01.resolve_spec vptr fields target placed size h).2
+  obtain ⟨_, r2, r3⟩ := C01.rustc_offsets_lem ps packed align? placed size a hsz ha
+  obtain ⟨_, _, _, _, _, _, _, _, htgt⟩ := C01.resolve_inv vptr fields target placed size h
+  refine ⟨r2, r3, htgt, ?_, ?_⟩
+  · intro n hn
+    subst hn
+    cases packed with
+    | true =>
+      have := (C01.alignCheck_packed_inv ps _ placed size a ha).2
+      cases this
+    | false =>
+      have := (C01.alignCheck_unpacked_inv ps _ placed size a ha).1
+      rw [this]; rfl
+  · intro hp
+    subst hp
+    exact (C01.alignCheck_packed_inv ps _ placed size a ha).1
+
+/-! ## provenance of the placed regions -/
+
+/-- every source region of `rs` satisfies `R` with its recorded size and alignment -/
+def AllSrc {β} (R : β → Nat → Option Nat → Prop) (rs : List (Placed β)) : Prop :=
+  ∀ pl ∈ rs, ∀ v, pl.src = some v → R v pl.size pl.align
+
+def FieldOK {β} (R : β → Nat → Option Nat → Prop) (f : PField β) : Prop :=
+  ∀ s, f.size = .ok (some s) → R f.val s f.align
+
+theorem allSrc_nil {β} (R : β → Nat → Option Nat → Prop) : AllSrc R [] := by
+  intro pl h; cases h
+
+theorem push_allSrc {β} (R : β → Nat → Option Nat → Prop) (st st' : St β) (sz : Res (Option Nat))
+    (al : Option Nat) (arr : Bool) (src : Option β) (h : push st sz al arr src = .ok st')
+    (hinv : AllSrc R st.1) (hnew : ∀ v s, src = some v → sz = .ok (some s) → R v s al) :
+    AllSrc R st'.1 := by
+  obtain ⟨s, hs, rfl⟩ := C01.push_ok_inv _ _ _ _ _ _ h
+  intro pl hpl v hv
+  rcases List.mem_append.mp hpl with hpl | hpl
+  · exact hinv pl hpl v hv
+  · unfold C01.reg at hpl
+    split at hpl
+    · cases hpl
+    · simp only [List.mem_singleton] at hpl
+      subst hpl
+      exact hnew v s hv hs
+
+theorem pushField_allSrc {β} (R : β → Nat → Option Nat → Prop) (st st' : St β) (f : PField β)
+    (h : pushField st f = .ok st') (hinv : AllSrc R st.1) (hf : FieldOK R f) : AllSrc R st'.1 := by
+  unfold pushField at h
+  refine push_allSrc R st st' _ _ _ _ h hinv ?_
+  intro v s hv hs
+  cases hv
+  exact hf s hs
+
+theorem pushPad_allSrc {β} (R : β → Nat → Option Nat → Prop) (st st' : St β) (n : Nat)
+    (h : pushPad st n = .ok st') (hinv : AllSrc R st.1) : AllSrc R st'.1 := by
+  unfold pushPad at h
+  refine push_allSrc R st st' _ _ _ _ h hinv ?_
+  intro v s hv
+  cases hv
+
+theorem place_allSrc {β} (R : β → Nat → Option Nat → Prop) (st st' : St β) (fields : List (PField β))
+    (h : place st fields = .ok st') (hinv : AllSrc R st.1) (hf : ∀ f ∈ fields, FieldOK R f) :
+    AllSrc R st'.1 := by
+  induction fields generalizing st with
+  | nil => simp only [place] at h; cases h; exact hinv
+  | cons f fs ih =>
+    have hfs : ∀ g ∈ fs, FieldOK R g := fun g hg => hf g (by simp [hg])
+    rcases C01.place_cons_inv st st' f fs h with ⟨_, st2, h2, h3⟩ | ⟨a, _, _, st1, st2, h1, h2, h3⟩
+    · exact ih st2 h3 (pushField_allSrc R st st2 f h2 hinv (hf f (by simp))) hfs
+    · exact ih st2 h3 (pushField_allSrc R st1 st2 f h2 (pushPad_allSrc R st st1 _ h1 hinv)
+        (hf f (by simp))) hfs
+
+theorem padTail_allSrc {β} (R : β → Nat → Option Nat → Prop) (st st' : St β) (target : Option Nat)
+    (h : padTail st target = .ok st') (hinv : AllSrc R st.1) : AllSrc R st'.1 := by
+  unfold padTail at h
+  split at h
+  · split at h
+    · exact pushPad_allSrc R st st' _ h hinv
+    · cases h; exact hinv
+  · cases h; exact hinv
+
+theorem resolve_allSrc {β} (R : β → Nat → Option Nat → Prop) (vptr : Option (PField β))
+    (fields : List (PField β)) (target : Option Nat) (placed : List (Placed β)) (size : Nat)
+    (h : resolve vptr fields target = .ok (placed, size))
+    (hv : ∀ v, vptr = some v → FieldOK R v) (hf : ∀ f ∈ fields, FieldOK R f) : AllSrc R placed := by
+  obtain ⟨st0, st1, st2, h0, h1, h2, rfl, _, _⟩ := C01.resolve_inv vptr fields target placed size h
+  have i0 : AllSrc R st0.1 := by
+    cases vptr with
+    | none => cases h0; exact allSrc_nil R
+    | some v => exact pushField_allSrc R ([], 0) st0 v h0 (allSrc_nil R) (hv v rfl)
+  exact padTail_allSrc R st1 st2 target h2 (place_allSrc R st0 st1 fields h1 i0 hf)
+
+theorem placed_layouts_lem (reg : Registry) (vptr : Option Region) (pending : List (Option Nat × Region))
+    (target : Option Nat) (placed : List (Placed Region)) (size : Nat)
+    (h : resolve (vptr.map (toPField reg none)) (pending.map fun p => toPField reg p.1 p.2) target = .ok (placed, size)) :
+    ∀ pl ∈ placed, ∀ r, pl.src = some r → r.ty.size reg = .ok (some pl.size) ∧ r.ty.align reg = pl.align := by
+  refine resolve_allSrc (fun r s al => r.ty.size reg = .ok (some s) ∧ r.ty.align reg = al) _ _ _ _ _ h ?_ ?_
+  · intro v hv s hs
+    cases vptr with
+    | none => cases hv
+    | some r =>
+      simp only [Option.map_some, Option.some.injEq] at hv
+      subst hv
+      exact ⟨hs, rfl⟩
+  · intro f hf s hs
+    obtain ⟨p, _, rfl⟩ := List.mem_map.mp hf
+    exact ⟨hs, rfl⟩
+
+/-! ## vftable structs -/
+
+theorem endOf_replicate (ps n o : Nat) (hps : 0 < ps) (ho : o % ps = 0) :
+    RustSem.endOf false o (List.replicate n ⟨ps, ps⟩) = o + n * ps := by
+  induction n generalizing o with
+  | zero => simp [RustSem.endOf]
+  | succ n ih =>
+    simp only [List.replicate_succ, RustSem.endOf, Bool.false_eq_true, if_false]
+    rw [C01.alignUp_of_dvd o ps (by omega) ho, ih (o + ps) (by simp [ho])]
+    rw [Nat.add_mul]; omega
+
+theorem maxAlign_replicate (ps n : Nat) (hps : 0 < ps) :
+    RustSem.maxAlign (List.replicate n ⟨ps, ps⟩) ≤ ps := by
+  unfold RustSem.maxAlign
+  apply C01.foldl_max_le _ _ _ hps
+  intro f hf
+  rw [(List.mem_replicate.mp hf).2]
+  exact Nat.le_refl _
+
+theorem vftable_sound_lem (ps n : Nat) (hps : 0 < ps) :
+    RustSem.structSize false (some ps) (List.replicate n ⟨ps, ps⟩) = n * ps
+    ∧ RustSem.structAlign false (some ps) (List.replicate n ⟨ps, ps⟩) = ps := by
+  have hsa : RustSem.structAlign false (some ps) (List.replicate n ⟨ps, ps⟩) = ps := by
+    have := maxAlign_replicate ps n hps
+    simp only [RustSem.structAlign, Bool.false_eq_true, if_false, Option.getD_some]
+    omega
+  refine ⟨?_, hsa⟩
+  unfold RustSem.structSize
+  rw [hsa, endOf_replicate ps n 0 hps (by simp), Nat.zero_add]
+  exact C01.alignUp_of_dvd _ ps (by omega) (by simp)
+
+/-! ## the predefined types in a fresh state -/
+
+def predefItem (nm : String × Nat) : ItemDef :=
+  { vis := G.Vis.pub, path := [nm.1],
+    state := IState.res { size := nm.2, align := predefinedAlign nm.2,
+                          inner := SInner.type { cloneable := true, copyable := true, defaultable := true } },
+    cat := Cat.predefined }
+
+/-- the step of the fold in `State.new` -/
+def newStep (s : State) (nm : String × Nat) : State :=
+  match s.addItem (predefItem nm) with
+  | .ok s' => s'
+  | _ => s
+
+theorem new_eq (ps : Nat) :
+    State.new ps = predefinedTypes.foldl newStep { modules := [([], ({} : Mod))], reg := { ps := ps } } := rfl
+
+theorem lookup_map_upd {α} (p : Path) (m' : α) (l : List (Path × α)) :
+    (l.map fun e => if e.1 == p then (e.1, m') else e).lookup p = (l.lookup p).map fun _ => m' := by
+  induction l with
+  | nil => rfl
+  | cons x l ih =>
+    obtain ⟨q, m⟩ := x
+    by_cases c : q = p
+    · subst c
+      simp
+    · have c' : (p == q) = false := by simp [Ne.symm c]
+      have c'' : (q == p) = false := by simp [c]
+      simp only [List.map_cons, c'', Bool.false_eq_true, if_false, List.lookup_cons, c', ih]
+
+theorem lookup_filter_ne {α} (p q : Path) (hne : p ≠ q) (l : List (Path × α)) :
+    (l.filter fun e => e.1 != q).lookup p = l.lookup p := by
+  induction l with
+  | nil => rfl
+  | cons x l ih =>
+    obtain ⟨k, m⟩ := x
+    by_cases c : k = q
+    · subst c
+      have c' : (p == k) = false := by simp [hne]
+      simp [List.lookup_cons, c', ih]
+    · have c' : (k != q) = true := by simp [c]
+      simp only [List.filter_cons, c', if_true, List.lookup_cons, ih]
+
+theorem get_add_same (r : Registry) (i : ItemDef) : (r.add i).get i.path = some i := by
+  simp [Registry.add, Registry.get]
+
+theorem get_add_ne (r : Registry) (i : ItemDef) (p : Path) (hne : p ≠ i.path) :
+    (r.add i).get p = r.get p := by
+  have c' : (p == i.path) = false := by simp [hne]
+  simp only [Registry.add, Registry.get, List.lookup_cons, c']
+  exact lookup_filter_ne p i.path hne r.types
+
+theorem newStep_spec (s : State) (nm : String × Nat) (hm : (s.getModule []).isSome = true) :
+    ((newStep s nm).getModule []).isSome = true ∧ (newStep s nm).reg = s.reg.add (predefItem nm) := by
+  obtain ⟨m, hm'⟩ := Option.isSome_iff_exists.mp hm
+  have hp : Path.parent? (predefItem nm).path = some [] := by
+    simp [predefItem, Path.parent?]
+  unfold newStep State.addItem
+  simp only [hp, hm', and_true]
+  unfold State.getModule at hm' ⊢
+  simp only [lookup_map_upd, hm', Option.map_some, Option.isSome_some]
+
+theorem fold_get_ne (l : List (String × Nat)) (s : State) (hm : (s.getModule []).isSome = true)
+    (n : String) (hn : ∀ nm ∈ l, nm.1 ≠ n) :
+    (l.foldl newStep s).reg.get [n] = s.reg.get [n] := by
+  induction l generalizing s with
+  | nil => rfl
+  | cons x l ih =>
+    obtain ⟨h1, h2⟩ := newStep_spec s x hm
+    simp only [List.foldl_cons]
+    rw [ih (newStep s x) h1 (fun nm hnm => hn nm (by simp [hnm])), h2]
+    apply get_add_ne
+    have := hn x (by simp)
+    simp only [predefItem, ne_eq, List.cons.injEq, and_true]
+    exact fun h => this h.symm
+
+theorem fold_get (l : List (String × Nat)) (s : State) (hm : (s.getModule []).isSome = true)
+    (nm : String × Nat) (hmem : nm ∈ l) (hnd : (l.map (·.1)).Nodup) :
+    (l.foldl newStep s).reg.get [nm.1] = some (predefItem nm) := by
+  induction l generalizing s with
+  | nil => cases hmem
+  | cons x l ih =>
+    obtain ⟨h1, h2⟩ := newStep_spec s x hm
+    simp only [List.map_cons, List.nodup_cons] at hnd
+    simp only [List.foldl_cons]
+    rcases List.mem_cons.mp hmem with rfl | hmem
+    · rw [fold_get_ne l _ h1 nm.1 ?_, h2]
+      · exact get_add_same s.reg (predefItem nm)
+      · intro y hy hc
+        exact hnd.1 (List.mem_map.mpr ⟨y, hy, hc⟩)
+    · exact ih (newStep s x) h1 hmem hnd.2
+
+theorem new_get (ps : Nat) (nm : String × Nat) (hmem : nm ∈ predefinedTypes) :
+    (State.new ps).reg.get [nm.1] = some (predefItem nm) := by
+  rw [new_eq]
+  exact fold_get predefinedTypes _ rfl nm hmem (by decide)
+
+/-! ## enums -/
+
+theorem intTypeRange_inv (ty : DTy) (r : Int × Int) (h : intTypeRange ty = some r) :
+    ∃ name, ty = .raw [name] ∧ name ∈ C08.intTypes.map (·.1) := by
+  unfold intTypeRange at h
+  split at h
+  · rename_i name
+    refine ⟨name, rfl, ?_⟩
+    apply Classical.byContradiction
+    intro hn
+    simp only [C08.intTypes, List.map_cons, List.map_nil, List.mem_cons, List.not_mem_nil, or_false,
+      not_or] at hn
+    simp [hn] at h
+  · cases h
+
+theorem int_layout (name : String) (hname : name ∈ C08.intTypes.map (·.1)) :
+    ∃ sz, (name, sz) ∈ predefinedTypes ∧ (name, sz, predefinedAlign sz) ∈ primLayout := by
+  simp only [C08.intTypes, List.map_cons, List.map_nil, List.mem_cons, List.not_mem_nil, or_false] at hname
+  rcases hname with rfl | rfl | rfl | rfl | rfl | rfl | rfl | rfl | rfl | rfl
+  · exact ⟨1, by decide, by decide⟩
+  · exact ⟨2, by decide, by decide⟩
+  · exact ⟨4, by decide, by decide⟩
+  · exact ⟨8, by decide, by decide⟩
+  · exact ⟨16, by decide, by decide⟩
+  · exact ⟨1, by decide, by decide⟩
+  · exact ⟨2, by decide, by decide⟩
+  · exact ⟨4, by decide, by decide⟩
+  · exact ⟨8, by decide, by decide⟩
+  · exact ⟨16, by decide, by decide⟩
+
+theorem buildEnum_inv (s : State) (p : Path) (d : G.EnumDef) (r : Resolved)
+    (h : buildEnum s p d = .ok r) :
+    ∃ ed range, r.inner = .enum ed ∧ ed.ty.size s.reg = .ok (some r.size) ∧
+      intTypeRange ed.ty = some range ∧ ed.ty.align s.reg = some r.align := by
+  unfold buildEnum at h
+  split at h
+  · cases h
+  · split at h
+    · rename_i ty hty
+      split at h
+      · cases h
+      · rename_i size hsize
+        split at h
+        · cases h
+        · rename_i range hrange
+          split at h
+          · split at h
+            · cases h
+            · split at h
+              · split at h
+                · cases h
+                · split at h
+                  · cases h
+                  · split at h
+                    · cases h
+                    · rename_i al hal
+                      cases h
+                      exact ⟨_, range, rfl, hsize, hrange, hal⟩
+              · exact absurd h (C01.cast_ne_ok _ _)
+          · exact absurd h (C01.cast_ne_ok _ _)
+      · exact absurd h (C01.cast_ne_ok _ _)
+    · exact absurd h (C01.cast_ne_ok _ _)
+
+theorem enum_sound_lem (s : State) (p : Path) (d : G.EnumDef) (r : Resolved)
+    (hreg : ∀ e ∈ C08.intTypes, s.reg.get [e.1] = (State.new s.reg.ps).reg.get [e.1])
+    (h : buildEnum s p d = .ok r) :
+    ∃ ed name, r.inner = .enum ed ∧ ed.ty = .raw [name] ∧ (name, r.size, r.align) ∈ primLayout := by
+  obtain ⟨ed, range, hin, hsize, hrange, hal⟩ := buildEnum_inv s p d r h
+  obtain ⟨name, hty, hname⟩ := intTypeRange_inv ed.ty range hrange
+  obtain ⟨sz, hpre, hprim⟩ := int_layout name hname
+  obtain ⟨e, he, rfl⟩ := List.mem_map.mp hname
+  have hget : s.reg.get [e.1] = some (predefItem (e.1, sz)) := by
+    rw [hreg e he]
+    exact new_get s.reg.ps (e.1, sz) hpre
+  refine ⟨ed, e.1, hin, hty, ?_⟩
+  rw [hty] at hsize hal
+  simp only [DTy.size, DTy.align, hget, Option.bind_some, ItemDef.resolved?, predefItem,
+    Option.map_some, Res.ok.injEq, Option.some.injEq] at hsize hal
+  rw [← hsize, ← hal]
+  exact hprim
+
+/-! ## emission -/
+
+theorem size_check_lem (reg : Registry) (path : Path) (size align : Nat) (vis : Vis) (td : TypeDefn)
+    (h : size > 0) :
+    Sexp.mk "sizecheck" [.str (fmtSizeCheck (path.getLast?.getD "")), .str (path.getLast?.getD ""), .int size]
+        ∈ Emit.typeItems reg path size align vis td := by
+  unfold Emit.typeItems
+  simp only [h, if_true]
+  simp
+
 end PyxisVerif.C02
